@@ -551,6 +551,7 @@ def run(ctx, chk):
     C07.r2_roots(ctx, chk, "C06.pre:C07.2")
     C07.r4_result(ctx, chk, "C06.pre:C07.4")
     C07.r35_worklist(ctx, chk, "C06.pre:C07.3", "C06.pre:C07.5")
+    C07.r6_reversed_table(ctx, chk, "C06.pre:C07.6")        # a missing table entry is a stray KeyError out of solve()
     # structural necessary conditions for termination of the sweeps
     C01.r4_sweep(ctx, chk, "C06.term:C01.4")
     C02.r3_sweep(ctx, chk, "C06.term:C02.3")
